@@ -170,7 +170,16 @@ pub(crate) fn spec_function(e: &ExpressionTree, ev: &dyn Fn(&ExpressionTree) -> 
                         (ValueIfAny(Value::Null), "make-timestamp-invalid-parts")
                     }
                 }
-                (Function::MakeTimestamp, vs) if vs.len() == 8 => if vs[..7].iter().any(|v| !matches!(v, Value::Int(_) | Value::Null)) { (Error, "fn-type-mismatch") } else { (Unspecified, "") },
+                // the README's form: seven INT parts (D64, repaired in /repo 7252aee: the evaluator only knew an eight-argument form)
+                (Function::MakeTimestamp, [Value::Int(y), Value::Int(mo), Value::Int(d), Value::Int(h), Value::Int(mi), Value::Int(s), Value::Int(us)]) => {
+                    if civil_valid(*y, *mo, *d, *h, *mi, *s, *us) {
+                        match mk_ts(*y as i32, *mo as u32, *d as u32, *h as u32, *mi as u32, *s as u32, (*us as u32) * 1000) {
+                            Some(t) => (val(Value::Timestamp(t)), "make-timestamp"),
+                            None => (Unspecified, ""),
+                        }
+                    } else { (ValueIfAny(Value::Null), "make-timestamp-invalid-parts") }
+                }
+                (Function::MakeTimestamp, vs) if vs.len() == 8 || vs.len() == 7 => if vs[..7].iter().any(|v| !matches!(v, Value::Int(_) | Value::Null)) { (Error, "fn-type-mismatch") } else { (Unspecified, "") },
                 (Function::TimestampExtractYear | Function::TimestampExtractMonth | Function::TimestampExtractDay | Function::TimestampExtractHour | Function::TimestampExtractMinute | Function::TimestampExtractSecond, [a]) => match a {
                     Value::Timestamp(t) => {
                         let v = match function {
@@ -365,6 +374,9 @@ pub fn function_cases(run: &mut Run, rng: &mut Rng, thorough: bool) {
         if thorough { for f in &fields { check_expr(run, &env, &call(f.clone(), vec![mk.clone()]), "extract:"); } }
         else { check_expr(run, &env, &call(fields[k % 6].clone(), vec![mk.clone()]), "extract:"); }
     }
+    for t in tuples.iter().take(40) {
+        check_expr(run, &env, &call(Function::MakeTimestamp, t.iter().map(|v| lit(Value::Int(*v))).collect()), "mkts7:");
+    }
     // a part of another type / NULL in each position
     for i in 0..8 { for v in &small {
         let mut args: Vec<ExpressionTree> = base.iter().map(|v| lit(Value::Int(*v))).collect();
@@ -418,6 +430,150 @@ pub fn function_cases(run: &mut Run, rng: &mut Rng, thorough: bool) {
             check_expr(run, &env, &call(Function::RegexMatches, vec![lit(Value::String((*v).to_owned())), lit(Value::String((*p).to_owned()))]), "regex:");
         }
     } }
+    leap_cases(run, rng, thorough);
     run.count("function-table");
     run.notes.push(format!("function table: {} cases — every function × every argument type (NULL included) and its boundary values; casts between every pair of types; judged node by node against the README meaning computed without the code under check", run.impl_out.len() - before));
+}
+
+
+fn interval_ns(i: &Duration) -> i128 { i.num_seconds() as i128 * 1_000_000_000 + i.subsec_nanos() as i128 }
+
+/// the instant `ns` nanoseconds after an ordinary (non-leap) timestamp, by plain integer arithmetic
+fn shift_plain(t: &DateTime<Local>, ns: i128) -> Option<DateTime<Local>> {
+    let total = t.timestamp() as i128 * 1_000_000_000 + t.timestamp_subsec_nanos() as i128 + ns;
+    let secs = total.div_euclid(1_000_000_000);
+    if secs > i64::MAX as i128 || secs < i64::MIN as i128 { return None; }
+    Local.timestamp_opt(secs as i64, total.rem_euclid(1_000_000_000) as u32).single()
+}
+
+/// TIMESTAMP / INTERVAL arithmetic: `ts + iv`, `iv + ts`, `ts - iv` move the instant; `ts - ts` is the distance of the
+/// instants; `iv ± iv` the sum / difference; every other operator has no value. Timestamps in leap-second
+/// representation are left to the correspondence (chrono's rules for entering / leaving a leap second).
+/// (D63, repaired in /repo 91aa1f4: the code used to add whatever the operator was.)
+pub(crate) fn spec_time_arith(op: &ArithmeticOperator, l: &Value, r: &Value) -> (Expect, &'static str) {
+    use Expect::{Error, Unspecified};
+    let leap = |t: &DateTime<Local>| t.nanosecond() >= 1_000_000_000;
+    match (l, r) {
+        (Value::Null, _) | (_, Value::Null) => (Unspecified, ""),
+        (Value::Timestamp(t), Value::Interval(i)) | (Value::Interval(i), Value::Timestamp(t)) => {
+            if leap(t) { return (Unspecified, ""); }
+            let ts_first = matches!(l, Value::Timestamp(_));
+            match op {
+                ArithmeticOperator::Add => match shift_plain(t, interval_ns(i)) { Some(x) => (Expect::Value(Value::Timestamp(x)), "timestamp-plus-interval"), None => (Error, "timestamp-out-of-range") },
+                ArithmeticOperator::Subtract if ts_first => match shift_plain(t, -interval_ns(i)) { Some(x) => (Expect::Value(Value::Timestamp(x)), "timestamp-minus-interval"), None => (Unspecified, "") },
+                _ => (Error, "timestamp-interval-operator-without-meaning"),
+            }
+        }
+        (Value::Timestamp(a), Value::Timestamp(b)) => match op {
+            ArithmeticOperator::Subtract => {
+                if leap(a) || leap(b) { return (Unspecified, ""); }
+                let ns = (a.timestamp() as i128 - b.timestamp() as i128) * 1_000_000_000 + a.timestamp_subsec_nanos() as i128 - b.timestamp_subsec_nanos() as i128;
+                let secs = ns.div_euclid(1_000_000_000);
+                match Duration::new(secs as i64, ns.rem_euclid(1_000_000_000) as u32) { Some(d) => (Expect::Value(Value::Interval(d)), "timestamp-difference"), None => (Unspecified, "") }
+            }
+            _ => (Error, "arith-type-mismatch"),
+        },
+        (Value::Interval(a), Value::Interval(b)) => match op {
+            ArithmeticOperator::Add => match a.checked_add(b) { Some(d) => (Expect::Value(Value::Interval(d)), "interval-sum"), None => (Error, "interval-overflow") },
+            ArithmeticOperator::Subtract => match a.checked_sub(b) { Some(d) => (Expect::Value(Value::Interval(d)), "interval-sum"), None => (Error, "interval-overflow") },
+            _ => (Error, "arith-type-mismatch"),
+        },
+        _ => (Error, "arith-type-mismatch"),
+    }
+}
+
+pub fn leap_timestamps() -> Vec<DateTime<Local>> {
+    let mut out = Vec::new();
+    for (y, mo, d, h, mi) in [(2016, 12, 31, 23, 59), (2015, 6, 30, 23, 59), (2021, 3, 4, 5, 6), (1969, 12, 31, 23, 59), (1970, 1, 1, 0, 0), (1677, 9, 21, 0, 12), (2262, 4, 11, 23, 47), (1677, 9, 21, 0, 11), (2262, 4, 11, 23, 48), (262142, 12, 31, 23, 59), (-262143, 1, 1, 0, 0)] {
+        for n in [1_000_000_000u32, 1_000_000_001, 1_500_000_000, 1_999_999_999] {
+            if let Some(t) = mk_ts(y, mo, d, h, mi, 59, n) { out.push(t); }
+        }
+    }
+    out
+}
+
+/// leap-second timestamps (`:60`) in every place where chrono has special rules: ± intervals that stay inside, reach the
+/// end of, or leave the leap second in either direction (1 ns, half a second, a second, a day, and the exact boundaries),
+/// differences with neighbours on both sides (also across midnight and between two leap seconds), date_trunc with every
+/// part (twice), EXTRACT of every field and of the epoch, comparisons, casts to and from text
+pub fn leap_cases(run: &mut Run, rng: &mut Rng, thorough: bool) {
+    let env: Vec<(String, Value)> = Vec::new();
+    let before = run.impl_out.len();
+    let leaps = leap_timestamps();
+    let steps: &[i64] = &[0, 1, -1, 2, 499_999_999, 500_000_000, 500_000_001, -499_999_999, -500_000_000, -500_000_001, 999_999_999, -999_999_999, 1_000_000_000, -1_000_000_000,
+        1_000_000_001, -1_000_000_001, 1_500_000_000, -1_500_000_000, 59_000_000_000, -59_000_000_000, 60_000_000_000, 86_399_000_000_000, 86_400_000_000_000, -86_400_000_000_000, 86_400_500_000_000, -86_400_500_000_000, 31_536_000_000_000_000];
+    let iv = |ns: i64| lit(Value::Interval(Duration::nanoseconds(ns)));
+    for (k, t) in leaps.iter().enumerate() {
+        let tl = lit(Value::Timestamp(*t));
+        let frac = t.nanosecond() as i64;
+        let mut my_steps: Vec<i64> = steps.to_vec();
+        // exactly to the end of the leap second, one short of it, and back to its start / one before
+        my_steps.extend_from_slice(&[2_000_000_000 - frac, 1_999_999_999 - frac, 1_000_000_000 - frac, 999_999_999 - frac]);
+        for ns in &my_steps {
+            if !thorough && k >= 8 && !rng.chance(1, 3) { continue; }
+            for op in [ArithmeticOperator::Add, ArithmeticOperator::Subtract] {
+                check_expr(run, &env, &ExpressionTree::Arithmetic { operator: op.clone(), left: bx(tl.clone()), right: bx(iv(*ns)) }, "leap-add:");
+            }
+            check_expr(run, &env, &ExpressionTree::Arithmetic { operator: ArithmeticOperator::Add, left: bx(iv(*ns)), right: bx(tl.clone()) }, "leap-add:");
+            // (t + iv) - t: does the difference give the interval back?
+            let moved = ExpressionTree::Arithmetic { operator: ArithmeticOperator::Add, left: bx(tl.clone()), right: bx(iv(*ns)) };
+            check_expr(run, &env, &ExpressionTree::Arithmetic { operator: ArithmeticOperator::Subtract, left: bx(moved.clone()), right: bx(tl.clone()) }, "leap-diff:");
+            check_expr(run, &env, &ExpressionTree::Arithmetic { operator: ArithmeticOperator::Subtract, left: bx(tl.clone()), right: bx(moved) }, "leap-diff:");
+        }
+        // differences with every other leap timestamp and with ordinary neighbours
+        for u in leaps.iter() {
+            if thorough || rng.chance(1, 5) || u.date_naive() == t.date_naive() {
+                check_expr(run, &env, &ExpressionTree::Arithmetic { operator: ArithmeticOperator::Subtract, left: bx(tl.clone()), right: bx(lit(Value::Timestamp(*u))) }, "leap-diff:");
+            }
+        }
+        for u in sample_timestamps().iter().take(if thorough { 100 } else { 6 }) {
+            check_expr(run, &env, &ExpressionTree::Arithmetic { operator: ArithmeticOperator::Subtract, left: bx(tl.clone()), right: bx(lit(Value::Timestamp(*u))) }, "leap-diff:");
+            check_expr(run, &env, &ExpressionTree::Arithmetic { operator: ArithmeticOperator::Subtract, left: bx(lit(Value::Timestamp(*u))), right: bx(tl.clone()) }, "leap-diff:");
+        }
+        for part in PARTS.iter().take(9) {
+            let once = call(Function::TruncateTimestamp, vec![lit(Value::String((*part).to_owned())), tl.clone()]);
+            check_expr(run, &env, &once, "leap-trunc:");
+            check_expr(run, &env, &call(Function::TruncateTimestamp, vec![lit(Value::String((*part).to_owned())), once]), "leap-trunc2:");
+        }
+        for f in [Function::TimestampExtractEpoch, Function::TimestampExtractYear, Function::TimestampExtractMonth, Function::TimestampExtractDay, Function::TimestampExtractHour, Function::TimestampExtractMinute, Function::TimestampExtractSecond] {
+            check_expr(run, &env, &call(f, vec![tl.clone()]), "leap-extract:");
+        }
+        check_expr(run, &env, &ExpressionTree::TypeConversion { operand: bx(tl.clone()), convert_to_type: ValueType::String }, "leap-cast:");
+        for u in leaps.iter().skip(k / 4 * 4).take(4) {
+            for op in [CompareOperator::Equal, CompareOperator::LessThan, CompareOperator::GreaterThanOrEqual] {
+                check_expr(run, &env, &ExpressionTree::Compare { operator: op.clone(), left: bx(tl.clone()), right: bx(lit(Value::Timestamp(*u))) }, "leap-cmp:");
+            }
+            for f in [Function::Greatest, Function::Least] { check_expr(run, &env, &call(f, vec![tl.clone(), lit(Value::Timestamp(*u))]), "leap-cmp:"); }
+        }
+    }
+    // second 60 from text literals and from make_timestamp, then the same steps
+    for text in ["2016-12-31 23:59:60", "2015-06-30 23:59:60", "2021-03-04 05:06:60", "2021-03-04 05:60:00", "2021-03-04 24:00:00", "2016-12-31 23:59:61"] {
+        let cast = ExpressionTree::TypeConversion { operand: bx(lit(Value::String(text.to_owned()))), convert_to_type: ValueType::Timestamp };
+        check_expr(run, &env, &cast, "leap-text:");
+        for ns in [1i64, -1, 999_999_999, 1_000_000_000, -1_000_000_000, 86_400_000_000_000] {
+            check_expr(run, &env, &ExpressionTree::Arithmetic { operator: ArithmeticOperator::Add, left: bx(cast.clone()), right: bx(iv(ns)) }, "leap-text:");
+        }
+        check_expr(run, &env, &call(Function::TimestampExtractEpoch, vec![cast.clone()]), "leap-text:");
+        check_expr(run, &env, &call(Function::TruncateTimestamp, vec![lit(Value::String("minute".to_owned())), cast.clone()]), "leap-text:");
+    }
+    for us in [999_999i64, 1_000_000, 1_500_000, 1_999_999] {
+        let mk = call(Function::MakeTimestamp, [2016i64, 12, 31, 23, 59, 59, us, 0].iter().map(|v| lit(Value::Int(*v))).collect());
+        for ns in [1i64, -1, 500_000_000, -500_000_000, 1_000_000_000, -1_000_000_000, 86_400_000_000_000, -86_400_000_000_000] {
+            check_expr(run, &env, &ExpressionTree::Arithmetic { operator: ArithmeticOperator::Add, left: bx(mk.clone()), right: bx(iv(ns)) }, "leap-mk:");
+        }
+        check_expr(run, &env, &ExpressionTree::Arithmetic { operator: ArithmeticOperator::Subtract, left: bx(mk.clone()), right: bx(call(Function::MakeTimestamp, [2016i64, 12, 31, 23, 59, 59, 1_250_000, 0].iter().map(|v| lit(Value::Int(*v))).collect())) }, "leap-mk:");
+        check_expr(run, &env, &call(Function::TimestampExtractEpoch, vec![mk.clone()]), "leap-mk:");
+        check_expr(run, &env, &call(Function::TruncateTimestamp, vec![lit(Value::String("second".to_owned())), mk.clone()]), "leap-mk:");
+    }
+    // ordinary timestamps with every operator and an interval (D63 regression), intervals with intervals
+    for t in sample_timestamps().iter().take(12) {
+        for ns in [3_600_000_000_000i64, -1, 1_500_000_000] {
+            for op in [ArithmeticOperator::Add, ArithmeticOperator::Subtract, ArithmeticOperator::Multiply, ArithmeticOperator::Divide] {
+                check_expr(run, &env, &ExpressionTree::Arithmetic { operator: op.clone(), left: bx(lit(Value::Timestamp(*t))), right: bx(iv(ns)) }, "ts-iv:");
+                check_expr(run, &env, &ExpressionTree::Arithmetic { operator: op.clone(), left: bx(iv(ns)), right: bx(lit(Value::Timestamp(*t))) }, "ts-iv:");
+            }
+        }
+    }
+    run.count("leap-table");
+    run.notes.push(format!("leap-second table: {} cases — timestamps in chrono's leap representation (from values, `'…:60'::timestamp` and make_timestamp(…, 59, ≥10^6 µs)) ± intervals that stay inside / reach the end of / leave the leap second, differences (also across midnight and between two leap seconds), date_trunc with every part (twice), EXTRACT incl. EPOCH, comparisons, display; every operator between TIMESTAMP and INTERVAL", run.impl_out.len() - before));
 }
